@@ -367,6 +367,11 @@ impl<'a> Interpreter<'a> {
                                         value: obj,
                                         member: ident.clone(),
                                     }),
+                                    // the member may name a function that is only
+                                    // bound at run time, stop constant folding
+                                    Err(_) if self.is_compile_time() => {
+                                        return Err(CelError::binding(ident));
+                                    }
                                     Err(_) => {
                                         stack.push(
                                             CelValue::from_err(CelError::attribute(
@@ -407,6 +412,10 @@ impl<'a> Interpreter<'a> {
                                         // a member of a failed value fails the same way,
                                         // it is not a missing field
                                         stack.push_val(obj);
+                                    } else if self.is_compile_time() {
+                                        // the member may name a function that is only
+                                        // bound at run time, stop constant folding
+                                        return Err(CelError::binding(ident));
                                     } else {
                                         stack.push(
                                             CelValue::from_err(CelError::attribute(
